@@ -17,6 +17,7 @@ mod wire;
 mod streams;
 mod pool;
 mod server;
+mod tls;
 
 use std::io::{BufRead, Write};
 
@@ -24,6 +25,7 @@ fn gen(stream: &str, seed: u64, n: u64) -> Vec<String> {
     match stream {
         "sniff-exhaustive" => return sniff::exhaustive(),
         "eb-exhaustive" => return eyeballs::exhaustive(),
+        "tls-exhaustive" => return tls::exhaustive(),
         _ => {}
     }
     let mut rng = rng::Rng::new(seed ^ fxhash(stream));
@@ -40,6 +42,7 @@ fn gen(stream: &str, seed: u64, n: u64) -> Vec<String> {
                 "st" => streams::gen(&mut r, i),
                 "pool" => pool::gen(&mut r, i),
                 "srv" => server::gen(&mut r, i),
+                "tls" => tls::gen(&mut r, i),
                 "poolt" => { let b = pool::gen_timed(&mut r, i); if b.starts_with('X') { b } else { format!("X{b}") } }
                 _ => panic!("unknown stream {stream}"),
             };
@@ -67,6 +70,7 @@ fn run_line(line: &str) -> String {
         "st" => streams::run(&toks),
         "pool" => pool::run(&toks),
         "srv" => server::run(&toks),
+        "tls" => tls::run(&toks),
         _ => "unknown-stream".to_string(),
     };
     format!("{input} | {obs}")
